@@ -17,6 +17,7 @@ import (
 	"errors"
 	"fmt"
 	"io"
+	"io/fs"
 	"log/slog"
 	"net/http/httptest"
 	"strconv"
@@ -424,7 +425,7 @@ func (b witnessBackend) Fetch(ctx context.Context, key string) ([]byte, error) {
 	defer b.s.mu.Unlock()
 	d, ok := b.s.objects[key]
 	if !ok {
-		return nil, fmt.Errorf("key %q not found", key)
+		return nil, fmt.Errorf("key %q not found: %w", key, fs.ErrNotExist) // as LocalBackend reports a missing file
 	}
 	return bytes.Clone(d), nil
 }
